@@ -44,13 +44,13 @@ TraceInit ==
     /\ h = 2 /\ par = [maxFeeds |-> 0, step |-> 1, minI |-> 1, maxI |-> 1, upd |-> 1]
     /\ power = [v \in Voter |-> 0]
     /\ vote = [v \in Voter |-> NoVote] /\ total = NoVote /\ idx = {}
-    /\ lock = [v \in Voter |-> NoLock] /\ feeds = {} /\ lastUpd = 0 /\ out = "init"
+    /\ lock = [v \in Voter |-> NoLock] /\ feeds = {} /\ lastUpd = 0 /\ fpar = par /\ out = "init"
     /\ l = 1 /\ ph = "act"
 
 ResetVars(st) ==
     /\ h' = st.h /\ par' = OPar(st) /\ power' = OPower(st)
     /\ vote' = OVote(st) /\ total' = OTotal(st) /\ idx' = OIdx(st)
-    /\ lock' = OLock(st) /\ feeds' = OFeeds(st) /\ lastUpd' = st.lastUpd
+    /\ lock' = OLock(st) /\ feeds' = OFeeds(st) /\ lastUpd' = st.lastUpd /\ fpar' = OPar(st)
     /\ out' = "init"
 
 SV(a) == [i \in 1..Len(a.sv) |-> [s |-> a.sv[i].s, p |-> a.sv[i].p]]
@@ -82,6 +82,11 @@ Sync ==
         /\ Bind("lock", lock, lock', OLock(st))
         /\ Bind("feeds", feeds, feeds', OFeeds(st))
         /\ Bind("lastUpd", lastUpd, lastUpd', st.lastUpd)
+        /\ UNCHANGED fpar
+        \* "locked against withdrawal": the power itself is an input (it also moves for reasons that are no withdrawal:
+        \* allowed denoms), but a withdrawal that was ACCEPTED never leaves the voter below the vote it has locked
+        /\ ("locked" \in Checked /\ Line.e \in {"Undelegate", "Unstake"} /\ Line.o.ok /\ Line.a.a \in Voter) =>
+               (lock[Line.a.a] = NoLock \/ OPower(st)[Line.a.a] >= lock[Line.a.a])
     /\ UNCHANGED out
 
 TraceNext == Act \/ Sync
